@@ -17,6 +17,7 @@ mod c04;
 mod c06;
 mod c10;
 mod c17;
+mod c01;
 mod common;
 mod rng;
 mod c07;
@@ -75,6 +76,7 @@ fn main() {
         "C06" => c06::run,
         "C10" => c10::run,
         "C17" => c17::run,
+        "C01" => c01::run,
         _ => { eprintln!("unknown property {}", prop); std::process::exit(2); }
     };
     let range: Vec<u64> = match only {
